@@ -73,6 +73,85 @@ def attrib_reads(fn, var_pred=None):
     return out
 
 
+def element_kinds(fn):
+    """which XML element a local of the reader stands for, from where it is bound: the loop variable over
+    <x>.xpath('<path>') is an element named by the last step of the path; a dictionary comprehension over such elements maps
+    to them; a parameter of a local function is what its call sites pass; `v = e.attrib` / `dict(e.attrib)` is e's
+    attribute table.  -> {name: 'token' | 'map:span' | 'attrib:ccg' ...}"""
+    kinds = {}
+
+    def xpath_kind(it):
+        if isinstance(it, ast.Call) and isinstance(it.func, ast.Attribute) and it.func.attr in ('xpath', 'findall', 'iter', 'iterfind') and it.args \
+                and isinstance(it.args[0], ast.Constant) and isinstance(it.args[0].value, str):
+            last = it.args[0].value.rstrip('/').split('/')[-1]
+            return last if last.isidentifier() else None
+        return None
+
+    def kind_of(e):
+        if isinstance(e, ast.Name):
+            return kinds.get(e.id)
+        if isinstance(e, ast.Subscript):
+            k = kind_of(e.value)
+            return k[4:] if k and k.startswith('map:') else None
+        if isinstance(e, ast.Attribute) and e.attr == 'attrib':
+            k = kind_of(e.value)
+            return 'attrib:' + k if k and ':' not in k else None
+        if isinstance(e, ast.Call) and isinstance(e.func, ast.Name) and e.func.id == 'dict' and len(e.args) == 1 and not e.keywords:
+            k = kind_of(e.args[0])
+            return k if k and k.startswith('attrib:') else None
+        return None
+    local_fns = {f.name: f for f in closure_walk(fn) if isinstance(f, ast.FunctionDef)}
+    for _ in range(4):
+        for n in closure_walk(fn):
+            if isinstance(n, (ast.For, ast.comprehension)) and isinstance(n.target, ast.Name):
+                k = xpath_kind(n.iter)
+                if k:
+                    kinds.setdefault(n.target.id, k)
+            if isinstance(n, ast.Assign) and len(n.targets) == 1 and isinstance(n.targets[0], ast.Name):
+                v = n.value
+                if isinstance(v, ast.DictComp):
+                    # comprehension targets first
+                    for g in v.generators:
+                        if isinstance(g.target, ast.Name) and xpath_kind(g.iter):
+                            kinds.setdefault(g.target.id, xpath_kind(g.iter))
+                    k = kind_of(v.value)
+                    if k and ':' not in k:
+                        kinds.setdefault(n.targets[0].id, 'map:' + k)
+                else:
+                    k = kind_of(v)
+                    if k:
+                        kinds.setdefault(n.targets[0].id, k)
+            if isinstance(n, ast.Call) and isinstance(n.func, ast.Name) and n.func.id in local_fns:
+                ps = [a.arg for a in local_fns[n.func.id].args.args]
+                for i, a in enumerate(n.args[:len(ps)]):
+                    k = kind_of(a)
+                    if k:
+                        kinds.setdefault(ps[i], k)
+    return kinds, kind_of
+
+
+def kinded_reads(fn):
+    """attribute names the reader looks up, by element kind: {(kind, key)}"""
+    kinds, kind_of = element_kinds(fn)
+    out = set()
+    for n in closure_walk(fn):
+        if isinstance(n, ast.Subscript) and isinstance(n.slice, ast.Constant) and isinstance(n.slice.value, str):
+            k = kind_of(n.value)
+            if k and k.startswith('attrib:'):
+                out.add((k[7:], n.slice.value))
+        if isinstance(n, ast.Call) and isinstance(n.func, ast.Attribute) and n.func.attr in ('get', 'pop') and n.args and isinstance(n.args[0], ast.Constant):
+            k = kind_of(n.func.value)
+            if k and k.startswith('attrib:'):
+                out.add((k[7:], n.args[0].value))
+            elif k and ':' not in k and n.func.attr == 'get':
+                out.add((k, n.args[0].value))           # element.get('k')
+        if isinstance(n, ast.Compare) and len(n.ops) == 1 and isinstance(n.ops[0], (ast.In, ast.NotIn)) and isinstance(n.left, ast.Constant):
+            k = kind_of(n.comparators[0])
+            if k and k.startswith('attrib:'):
+                out.add((k[7:], n.left.value))
+    return out
+
+
 def r_candc(repo, rep, R='R15.1'):
     pm = repo.module(PX)
     pt = pm.get('_process_tree')
@@ -173,6 +252,10 @@ def r_jigg(repo, rep, R='R15.2'):
     span_reads = {k for v, k in reads if v in ('attrib', 'span.attrib')}
     ccg_reads = {k for v, k in reads if v in ('tree.attrib', 'ccg.attrib')}
     tok_reads = {k for v, k in reads if v == 'token_attribs'}
+    kr = kinded_reads(rj)
+    span_reads |= {k for kd, k in kr if kd == 'span'}
+    ccg_reads |= {k for kd, k in kr if kd == 'ccg'}
+    tok_reads |= {k for kd, k in kr if kd == 'token'}
     rep.check(span_reads <= span_attrs and {'id', 'category', 'child', 'terminal'} <= span_reads, R, w, 'jigg:span-attrs',
               'span attributes read by read_jigg_xml %s are all written %s' % (sorted(span_reads), sorted(span_attrs)),
               'read_jigg_xml reads span attributes %s, the writer sets %s' % (sorted(span_reads), sorted(span_attrs)))
@@ -192,25 +275,46 @@ def r_jigg(repo, rep, R='R15.2'):
               '%s:%s build_ccg_tree' % (CT, bt.lineno), 'jigg:ccg2lambda-attrs',
               'ccg2lambda\'s tree builder reads root / child / id, all of which the writer sets', 'build_ccg_tree reads %s; writer sets ccg %s span %s' % (sorted(breads), sorted(ccg_attrs), sorted(span_attrs)))
     rep.check('rule' in span_attrs and 'category' in span_attrs, R, w, 'jigg:rule-category', 'inner spans carry rule and category for the templates', 'span attributes are %s' % sorted(span_attrs))
-    # id templates
-    term = span_sets[span_var[0]].get('terminal')
-    tid = tok_sets[tok_var[0]].get('id') if tok_var else None
+    # id templates, read off the values the writer hands to set('terminal', ..) / set('id', ..) with helpers inlined
+    def set_values(fn, attr, recv_has=None, **kw):
+        out = []
+        for st_, o_ in SymExec(fn, **kw).run():
+            for e_ in st_.events:
+                if e_[0] == 'call' and e_[1][1][0] == 'attr' and e_[1][1][2] == 'set' and len(e_[1][2]) == 2 and e_[1][2][0] == C(attr):
+                    if recv_has is not None and recv_has not in show(e_[1][1][1]):
+                        continue
+                    if e_[1][2][1] not in out:
+                        out.append(e_[1][2][1])
+        return out
 
-    def shape(node):
-        if not isinstance(node, ast.JoinedStr):
+    def shape(t):
+        if t is None:
             return None
-        return ''.join(v.value if isinstance(v, ast.Constant) else '{}' for v in node.values)
+        return ''.join(x if isinstance(x, str) else '{}' for x in str_parts(t))
+    terms_ = set_values(_trav, 'terminal', init_env={_trav.name: ('func', _trav.name, id(_trav))})
+    tids_ = set_values(tj, 'id', recv_has="'token'", unroll=1)
+    term = terms_[0] if len(terms_) == 1 else None
+    tid = tids_[0] if len(tids_) == 1 else None
     rep.check(term is not None and tid is not None and shape(term) == shape(tid) == 's{}_{}', R, w, 'jigg:terminal-template',
               'terminal references and token ids share the template s<sentence>_<token index>', 'terminal template %s, token id template %s' % (shape(term), shape(tid)))
-    tloop = [l for l in ast.walk(tj) if isinstance(l, ast.For) and isinstance(l.iter, ast.Call) and src(l.iter.func) == 'enumerate']
-    ok = bool(tloop) and isinstance(term, ast.JoinedStr) and isinstance(tid, ast.JoinedStr)
+    ok = term is not None and tid is not None and shape(term) == shape(tid) == 's{}_{}'
     if ok:
-        sent_idx = tloop[0].target.elts[0].id if isinstance(tloop[0].target, ast.Tuple) else None
-        tokloop = [l for l in ast.walk(tj) if isinstance(l, ast.For) and l is not tloop[0] and isinstance(l.iter, ast.Call) and src(l.iter.func) == 'enumerate']
-        ok = bool(tokloop) and [src(v.value) for v in tid.values if isinstance(v, ast.FormattedValue)] == [sent_idx, tokloop[0].target.elts[0].id]
-        first = [src(v.value) for v in term.values if isinstance(v, ast.FormattedValue)][0]
+        tf = [x for x in str_parts(tid) if not isinstance(x, str)]
+        sent_t, tok_t = tf
+
+        def enum_index(t):
+            return t[0] == 'unpack' and t[2] == 0 and t[1][0] == 'elem' and t[1][1][0] == 'call' and t[1][1][1] == N('enumerate') and len(t[1][1][2]) == 1 and not t[1][1][3]
+        tparam = own_params(tj)[0]
+        ok = enum_index(sent_t) and sent_t[1][1][2][0] == N(tparam) and enum_index(tok_t) and any(x == sent_t[1] for x in subterms(tok_t[1][1][2][0]))
+        first_t = [x for x in str_parts(term) if not isinstance(x, str)][0]
+        first = show(first_t)
         cls_ = proc._parent if isinstance(getattr(proc, '_parent', None), ast.ClassDef) else None
         same_sentence = False
+        tj_calls = []
+        for st_, o_ in SymExec(tj, unroll=1, no_inline=(proc.name,)).run():
+            for c_ in all_calls(st_):
+                if c_ not in tj_calls:
+                    tj_calls.append(c_)
         if first.startswith('self.') and cls_ is not None:
             # the sentence number is a field of the per-sentence converter, set from the constructor argument
             fld = first[5:]
@@ -220,20 +324,20 @@ def r_jigg(repo, rep, R='R15.2'):
                 if isinstance(x, ast.Assign) and any(src(t) == 'self.' + fld for t in x.targets) and isinstance(x.value, ast.Name):
                     q = x.value.id
             ips = [a.arg for a in init[0].args.args][1:] if init else []
-            for n in ast.walk(tj):
-                if isinstance(n, ast.Call) and src(n.func) == cls_.name and q in ips:
-                    i_ = ips.index(q)
-                    got = n.args[i_] if len(n.args) > i_ else next((k.value for k in n.keywords if k.arg == q), None)
-                    same_sentence = got is not None and src(got) == sent_idx
+            for c_ in tj_calls:
+                if c_[1] == N(cls_.name) and q in ips:
+                    bound = dict(zip(ips, c_[2]))
+                    bound.update({k: v for k, v in c_[3] if k is not None})
+                    same_sentence = bound.get(q) == sent_t
         else:
             # ... or a parameter of the per-tree function, filled by the caller
-            cps = [a.arg for a in proc.args.args]
+            cps = own_params(proc)
             if first in cps:
-                i_ = cps.index(first)
-                for n in ast.walk(tj):
-                    if isinstance(n, ast.Call) and src(n.func) == proc.name:
-                        got = n.args[i_] if len(n.args) > i_ else next((k.value for k in n.keywords if k.arg == first), None)
-                        same_sentence = got is not None and src(got) == sent_idx
+                for c_ in tj_calls:
+                    if c_[1] == N(proc.name) or (c_[1][0] == 'attr' and c_[1][2] == proc.name) or (c_[1][0] == 'func' and c_[1][1] == proc.name):
+                        bound = dict(zip(cps, c_[2]))
+                        bound.update({k: v for k, v in c_[3] if k is not None})
+                        same_sentence = bound.get(first) == sent_t
         ok = ok and same_sentence
     rep.check(ok, R, w, 'jigg:same-indices', 'both templates are filled with the sentence index and the running leaf / token index',
               'terminal reference and token id are not filled from the same (sentence, position) pair')
@@ -675,8 +779,9 @@ def r_token_names(repo, rep, R='R15.5'):
             if not raw:
                 continue
             later = st.events[raw[-1] + 1:]
+            written = st.events[raw[-1]][1][2][1]
             decided = any(normal(e) for e in later) or any(
-                e[0] == 'branch' and any(x == C(attr) for x in subterms(e[1])) for e in later)
+                e[0] == 'branch' and any(x == C(attr) or (written[0] != 'const' and x == written) for x in subterms(e[1])) for e in later)
             if not decided:
                 bad.append('%s = %s' % (attr, show(st.events[raw[-1]][1][2][1])[:50]))
     if not n_paths:
